@@ -1,6 +1,8 @@
 package doerner
 
 import (
+	"errors"
+
 	"github.com/taurusgroup/multi-party-sig/internal/round"
 	"github.com/taurusgroup/multi-party-sig/pkg/math/curve"
 	"github.com/taurusgroup/multi-party-sig/pkg/party"
@@ -81,6 +83,9 @@ func SignReceiver(config *ConfigReceiver, selfID, otherID party.ID, hash []byte,
 	if err := config.Validate(); err != nil {
 		return func([]byte) (round.Session, error) { return nil, err }
 	}
+	if len(hash) == 0 {
+		return func([]byte) (round.Session, error) { return nil, errors.New("doerner.SignReceiver: hash is empty") }
+	}
 	return sign.StartSignReceiver(config, selfID, otherID, hash, pl)
 }
 
@@ -90,6 +95,9 @@ func SignReceiver(config *ConfigReceiver, selfID, otherID party.ID, hash []byte,
 func SignSender(config *ConfigSender, selfID, otherID party.ID, hash []byte, pl *pool.Pool) protocol.StartFunc {
 	if err := config.Validate(); err != nil {
 		return func([]byte) (round.Session, error) { return nil, err }
+	}
+	if len(hash) == 0 {
+		return func([]byte) (round.Session, error) { return nil, errors.New("doerner.SignSender: hash is empty") }
 	}
 	return sign.StartSignSender(config, selfID, otherID, hash, pl)
 }
